@@ -87,6 +87,92 @@ def rand_gff_features(rng, n):
     return feats
 
 
+def rand_loc(rng):
+    """GenBank location AST: ["seg", a, b, "<"|"", ">"|""] | ["pt", a] | ["join", [..]] | ["compl", [child]]"""
+    def seg():
+        a = rng.randint(1, 30)
+        if rng.random() < 0.12:
+            return ["pt", a]
+        return ["seg", a, a + rng.choice([0, 1, 3, 7, 12]), rng.choice(["", "", "", "<"]), rng.choice(["", "", "", ">"])]
+
+    def join(inner_compl):
+        kids = []
+        for _ in range(rng.choice([2, 2, 3, 4])):
+            k = seg()
+            if inner_compl and rng.random() < 0.4:
+                k = ["compl", [k]]
+            kids.append(k)
+        return ["join", kids]
+
+    shape = rng.choice(["seg", "seg", "cseg", "join", "join", "cjoin", "mixed", "nested"])
+    if shape == "seg":
+        return seg()
+    if shape == "cseg":
+        return ["compl", [seg()]]
+    if shape == "join":
+        return join(False)
+    if shape == "cjoin":
+        return ["compl", [join(False)]]
+    if shape == "mixed":
+        return join(True)
+    return ["join", [seg(), join(False), ["compl", [join(False)]]]]
+
+
+def loc_text(x):
+    if x[0] == "seg":
+        return f"{x[3]}{x[1]}..{x[4]}{x[2]}"
+    if x[0] == "pt":
+        return str(x[1])
+    return ("join(" if x[0] == "join" else "complement(") + ",".join(loc_text(k) for k in x[1]) + ")"
+
+
+def loc_coq(x):
+    if x[0] == "seg":
+        return f"(LSeg {zlit(x[1])} {zlit(x[2])})"
+    if x[0] == "pt":
+        return f"(LPoint {zlit(x[1])})"
+    return ("(LJoin [" if x[0] == "join" else "(LCompl [") + ";".join(loc_coq(k) for k in x[1]) + "])"
+
+
+def loc_oracle(x, strand=1):
+    """the positions a GenBank location denotes: [(start0, stop_excl, strand)]; 1-based closed -> 0-based half-open"""
+    if x[0] == "seg":
+        return [(x[1] - 1, x[2], strand)]
+    if x[0] == "pt":
+        return [(x[1] - 1, x[1], strand)]
+    return [s for k in x[1] for s in loc_oracle(k, -strand if x[0] == "compl" else strand)]
+
+
+def rand_gb_features(rng, n):
+    feats = []
+    for _ in range(n):
+        q = rng.choice(["gene", "gene", "locus_tag", None])
+        feats.append(dict(biotype=rng.choice(BIOTYPES + ["misc_feature"]), qualifier=q,
+                          qname=rng.choice(["abc", "abcd", "ABC", "g1", "g10", "a_c"]) if q else None, loc=rand_loc(rng)))
+    return feats
+
+
+def gb_names(feats):
+    """name = first naming qualifier, else <type>-<running number of unnamed features> (_make_fake_id)"""
+    out, k = [], 0
+    for f in feats:
+        if f["qualifier"]:
+            out.append(f["qname"])
+        else:
+            out.append(f"{f['biotype']}-{k}")
+            k += 1
+    return out
+
+
+def rand_cd(rng):
+    """count_distinct arguments (seqid, biotype, name): False | True | a value or pattern"""
+    return [rng.choice([False, True, True, rng.choice(SEQIDS + ["s%"])]), rng.choice([False, True, rng.choice(BIOTYPES)]),
+            rng.choice([False, True, rng.choice(["abc", "a%", "g1%", "%"])])]
+
+
+ALL_CDS = [[a, b, c] for a in (False, True, "s1") for b in (False, True, "gene") for c in (False, True, "u%")]
+
+
 def rand_query(rng, maxc=32):
     q = dict(biotype=None, seqid=None, name=None, strand=None, attrs=None, on_aln=None, start=None, stop=None,
              partial=rng.random() < 0.5)
@@ -121,6 +207,10 @@ def lattice_case(kind, n=6):
         feats = [dict(seqid="s1", biotype="gene", name=f"f{fs}_{fe}", strand="+", attrs=None, lines=[[fs + 1, fe]])
                  for fs in range(n + 1) for fe in range(fs + 1, n + 1)]
         ops.append(dict(op="gff", features=feats))
+    elif kind == "gb":
+        feats = [dict(biotype="gene", qualifier="gene", qname=f"f{fs}_{fe}", loc=["seg", fs + 1, fe, "", ""])
+                 for fs in range(n + 1) for fe in range(fs + 1, n + 1)]
+        ops.append(dict(op="gb", seqid="s1", features=feats))
     else:
         for fs in range(n + 1):
             for fe in range(fs, n + 1):
@@ -160,25 +250,43 @@ def twotable_cases():
                         q.update(f)
                         qs.append(q)
     adds = [dict(op="add", raw=u) for u in users]
+    return [dict(c, cds=ALL_CDS) for c in _twotable(gff_feats, adds, qs)]
+
+
+def _twotable(gff_feats, adds, qs):
     return [dict(kind="gff", ops=[dict(op="gff", features=gff_feats)], queries=qs, block="twotable"),
             dict(kind="gff", ops=[dict(op="gff", features=gff_feats)] + adds, queries=qs, block="twotable"),
             dict(kind="gff", ops=adds, queries=qs, block="twotable"),
-            dict(kind="basic", ops=adds, queries=qs, block="twotable")]
+            dict(kind="basic", ops=adds, queries=qs, block="twotable"),
+            dict(kind="gb", ops=[dict(op="gb", seqid="s1", features=[
+                dict(biotype="gene", qualifier="gene", qname="b03", loc=["seg", 1, 3, "", ""]),
+                dict(biotype="CDS", qualifier=None, qname=None, loc=["compl", [["join", [["seg", 1, 2, "<", ""], ["seg", 5, 6, "", ">"]]]]]),
+                dict(biotype="CDS", qualifier="locus_tag", qname="", loc=["join", [["pt", 3], ["compl", [["seg", 4, 6, "", ""]]]]])])] + adds,
+                 queries=[q for q in qs if q["attrs"] is None], block="twotable")]
 
 
 def random_case(rng):
-    kind = rng.choice(["basic", "gff"])
+    kind = rng.choice(["basic", "gff", "gff", "gb"])
     ops = []
     if kind == "gff":
         ops.append(dict(op="gff", features=rand_gff_features(rng, rng.randint(1, 8))))
+    elif kind == "gb":
+        ops.append(dict(op="gb", seqid=rng.choice(SEQIDS), features=rand_gb_features(rng, rng.randint(1, 8))))
     for _ in range(rng.randint(1, 8)):
         r = rng.random()
         if r < 0.55 or not ops:
             ops.append(dict(op="add", raw=rand_user(rng)))
-        elif r < 0.65:
-            ops.append(dict(op="union", other=[rand_user(rng) for _ in range(rng.randint(0, 3))]))
         elif r < 0.75:
-            ops.append(dict(op="update", other=[rand_user(rng) for _ in range(rng.randint(0, 3))]))
+            # the other db: a BasicAnnotationDb, or (two-table classes) one of the same class loaded from text
+            o = dict(op="union" if r < 0.65 else "update", other=[rand_user(rng) for _ in range(rng.randint(0, 3))])
+            if kind != "basic" and rng.random() < 0.5:
+                o["other_kind"] = kind
+                if kind == "gff":
+                    o["other_feats"] = rand_gff_features(rng, rng.randint(1, 4))
+                else:
+                    o["other_seqid"] = rng.choice(SEQIDS)
+                    o["other_feats"] = rand_gb_features(rng, rng.randint(1, 4))
+            ops.append(o)
         elif r < 0.85:
             q = rand_query(rng)
             q["on_aln"] = None
@@ -189,9 +297,15 @@ def random_case(rng):
         # write + reload from file: last, because a file-backed db shares its file with its copies
         ops.append(dict(op="copy", how="write"))
     qs = [rand_query(rng) for _ in range(rng.randint(3, 8))]
+    if kind == "gb":
+        for q in qs:
+            q["attrs"] = None  # the gb attributes column is JSON text; attribute queries are not part of this block
+        for o in ops:
+            if o["op"] == "subset":
+                o["query"]["attrs"] = None
     qs.append(dict(biotype=None, seqid=None, name=None, strand=None, attrs=None, on_aln=None, start=None, stop=None,
                    partial=False))
-    return dict(kind=kind, ops=ops, queries=qs, block="random")
+    return dict(kind=kind, ops=ops, queries=qs, block="random", cds=[rand_cd(rng) for _ in range(3)])
 
 
 # ------------------------------------------------------------------ chunked GFF loads (lines_per_block)
@@ -486,6 +600,10 @@ def coq_raw_gff(f):
             f"{ostr(gff_attr_text(f))} {pairs(f['lines'])})")
 
 
+def coq_raw_gb(seqid, f, name):
+    return f"(RawGb {zstr(seqid)} {zstr(f['biotype'])} {zstr(name)} {loc_coq(f['loc'])})"
+
+
 def coq_query(q):
     return (f"(mkq {ostr(q['biotype'])} {ostr(q['seqid'])} {ostr(q['name'])} {ostr(q['strand'])} {ostr(q['attrs'])} "
             f"{obool(q['on_aln'])} {oz(q['start'])} {oz(q['stop'])} {cbool(q['partial'])})")
@@ -499,15 +617,93 @@ def coq_case(c):
             ops.append(f"OAdd {coq_raw_user(o['raw'])}")
         elif o["op"] == "gff":
             ops += [f"OAdd {coq_raw_gff(f)}" for f in o["features"]]
-        elif o["op"] == "union":
-            ops.append("OUnion [" + ";".join(coq_raw_user(r) for r in o["other"]) + "]")
-        elif o["op"] == "update":
-            ops.append("OUpdate [" + ";".join(coq_raw_user(r) for r in o["other"]) + "]")
+        elif o["op"] == "gb":
+            ops += [f"OAdd {coq_raw_gb(o['seqid'], f, nm)}" for f, nm in zip(o["features"], gb_names(o["features"]))]
+        elif o["op"] in ("union", "update"):
+            raws = [coq_raw_user(r) for r in o["other"]]
+            ok = o.get("other_kind", "basic")
+            if ok == "gff":
+                raws = [coq_raw_gff(f) for f in o["other_feats"]] + raws
+            elif ok == "gb":
+                raws = [coq_raw_gb(o["other_seqid"], f, nm) for f, nm in zip(o["other_feats"], gb_names(o["other_feats"]))] + raws
+            ops.append(("OUnion " if o["op"] == "union" else "OUpdate ") + ("[1]" if ok == "basic" else "[0;1]") + " [" + ";".join(raws) + "]")
         elif o["op"] == "subset":
             ops.append(f"OSubset {coq_query(o['query'])}")
         elif o["op"] == "copy":
-            ops.append("OCopy")
+            ops.append("OJson" if o["how"] == "json" else "OCopy")
     return f"({tables}, [" + ";".join(ops) + "], [" + ";".join(coq_query(q) for q in c["queries"]) + "])"
+
+
+def coq_cdarg(a):
+    return "CDoff" if a is False else "CDcol" if a is True else f"(CDval {zstr(a)})"
+
+
+def coq_cd_case(c):
+    base = coq_case(dict(c, queries=[]))
+    head = base[:base.rindex(", [")]
+    return head + ", [" + ";".join(f"({coq_cdarg(a)},{coq_cdarg(b)},{coq_cdarg(d)})" for a, b, d in c.get("cds", [])) + "])"
+
+
+def cd_oracle(c):
+    """count_distinct by the specification: per table, the matching records grouped by the selected columns"""
+    db = oracle_rows(c)
+    out = []
+    tables = [1] if c["kind"] == "basic" else [0, 1]
+    for cd in c.get("cds", []):
+        if not any(a is True for a in cd):
+            out.append(None)
+            continue
+        rows = []
+        for t in tables:
+            cnt = {}
+            for r in db:
+                if r["table"] != t:
+                    continue
+                vals = (r["seqid"], r["biotype"], r["name"])
+                if not all(_strcond(a, v) for a, v in zip(cd, vals) if isinstance(a, str)):
+                    continue
+                k = tuple((v,) if a is True else () for a, v in zip(cd, vals))
+                cnt[k] = cnt.get(k, 0) + 1
+            rows += [[[list(x) for x in k], n] for k, n in cnt.items()]
+        out.append(sorted(rows, key=repr))
+    return out
+
+
+def run_cd_model(cases):
+    idx = [i for i, c in enumerate(cases) if c.get("cds")]
+    out = core.coq_eval(PROP, ["Model.AnnotDb", "Model.AnnotDbRun"], "run_cd_case", [coq_cd_case(cases[i]) for i in idx],
+                        "list Z * list op * list (cdarg * cdarg * cdarg)", shard=60, tag="cd")
+    res = {}
+    for i, r in zip(idx, out):
+        res[i] = [None if x is None else sorted(x, key=repr) for x in r]
+    return res
+
+
+def cd_compare(rep, cases, impl, cdmodel):
+    """count_distinct: implementation vs grouping oracle vs model; returns (#evaluations, disagreements, #violations)"""
+    n = nvio = 0
+    dis = []
+    for i, (c, ir) in enumerate(zip(cases, impl)):
+        if not c.get("cds") or (isinstance(ir, dict) and "exc" in ir):
+            continue
+        obs = from_jsonable(ir[len(c["queries"])])
+        orc = cd_oracle(c)
+        wf = all(r["start"] < r["stop"] for r in oracle_rows(c)) and all(
+            oracle_applicable(c, o["query"]) for o in c["ops"] if o["op"] == "subset")
+        mod = cdmodel.get(i) if cdmodel else None
+        for k, cd in enumerate(c["cds"]):
+            n += 1
+            if wf and obs[k] != orc[k]:
+                nvio += 1
+                shape = "+".join("col" if a is True else "off" if a is False else "val" for a in cd)
+                rep.violation(f"count_distinct:{c['kind']}:{shape}",
+                              dict(case=dict(c, queries=[], cds=[cd]), expected_by_spec=jsonable(orc[k]), observed_impl=jsonable(obs[k]),
+                                   model_output=jsonable(mod[k]) if mod else None,
+                                   broken="count_distinct differs from grouping the records a linear scan selects"))
+            elif mod is not None and obs[k] != mod[k]:
+                dis.append(dict(key=f"count_distinct:{c['kind']}:model", case=dict(c, queries=[], cds=[cd]),
+                                observed_impl=jsonable(obs[k]), model_output=jsonable(mod[k])))
+    return n, dis, nvio
 
 
 def run_model(cases):
@@ -548,13 +744,28 @@ def oracle_rows(c):
         return dict(table=0, seqid=f["seqid"], biotype=f["biotype"], name=f["name"], strand=f["strand"] or ".",
                     attrs=gff_attr_text(f), on_aln=None, spans=sp, start=min(flat), stop=max(flat))
 
+    def gb(seqid, f, name):
+        segs = loc_oracle(f["loc"])
+        sp = sorted([a, b] for a, b, _ in segs)
+        strands = {st for _, _, st in segs}
+        flat = [x for p in sp for x in p]
+        return dict(table=0, seqid=seqid, biotype=f["biotype"], name=name, strand={1: "+", -1: "-"}[strands.pop()] if len(strands) == 1 else None,
+                    attrs=None, on_aln=None, spans=sp, start=min(flat), stop=max(flat))
+
     db = []
     for o in c["ops"]:
         if o["op"] == "add":
             db.append(user(o["raw"]))
         elif o["op"] == "gff":
             db += [gff(f) for f in o["features"]]
+        elif o["op"] == "gb":
+            db += [gb(o["seqid"], f, nm) for f, nm in zip(o["features"], gb_names(o["features"]))]
         elif o["op"] in ("union", "update"):
+            ok = o.get("other_kind", "basic")
+            if ok == "gff":
+                db += [gff(f) for f in o["other_feats"]]
+            elif ok == "gb":
+                db += [gb(o["other_seqid"], f, nm) for f, nm in zip(o["other_feats"], gb_names(o["other_feats"]))]
             db += [user(r) for r in o["other"]]
         elif o["op"] == "subset":
             db = [r for r in db if oracle_match(o["query"], r)]
@@ -685,7 +896,7 @@ def run(tier: str, seed: int) -> int:
     ncases = 150 if tier == "quick" else 2500
     if proof_broken:
         ncases *= 4  # widened search
-    cases = [lattice_case("basic"), lattice_case("gff")] + twotable_cases()
+    cases = [lattice_case("basic"), lattice_case("gff"), lattice_case("gb")] + twotable_cases()
     cases += [random_case(rng) for _ in range(ncases)]
     rng_g = random.Random(seed * 7919 + 18)
     gcases = [GB_PROBE] + gb_exhaustive_cases() + [gb_random_case(rng_g) for _ in range((60 if tier == "quick" else 1500) * (4 if proof_broken else 1))]
@@ -693,9 +904,10 @@ def run(tier: str, seed: int) -> int:
     impl, gimpl = impl_all[:len(cases)], impl_all[len(cases):]
     # which rule does the source follow for a name met again in a later block (see Model/AnnotDbGff.v)?
     gb_fixed = isinstance(gimpl[0], list) and len(gimpl[0][1][0]) == 1
-    model = gmodel = None
+    model = gmodel = cdmodel = None
     try:
         model = run_model(cases)
+        cdmodel = run_cd_model(cases)
         gmodel = core.coq_eval(PROP, ["Model.AnnotDb", "Model.AnnotDbGff"], "run_blocks", [gb_coq_case(c, gb_fixed) for c in gcases],
                                "bool * list (option gline) * list Z", shard=80, tag="gb")
     except core.CheckError as e:
@@ -709,8 +921,10 @@ def run(tier: str, seed: int) -> int:
         # model unavailable: still compare implementation against the specification oracle
     ndis, nvio = compare(rep, cases, impl, model)
     g_loads, g_nontriv, g_dis, g_vio = gb_compare(rep, gcases, gimpl, gmodel, gb_fixed)
+    cd_n, cd_dis, cd_vio = cd_compare(rep, cases, impl, cdmodel)
+    g_dis = g_dis + cd_dis
     ndis += len(g_dis)
-    nvio += g_vio
+    nvio += g_vio + cd_vio
 
     nq = sum(len(c["queries"]) for c in cases)
     nontrivial = set()
@@ -725,7 +939,7 @@ def run(tier: str, seed: int) -> int:
         for o in c["ops"]:
             dist[o["op"]] = dist.get(o["op"], 0) + 1
     rep.coverage.update(
-        evaluations=nq + g_loads, distinct_nontrivial=len(nontrivial) + g_nontriv,
+        evaluations=nq + g_loads + cd_n, distinct_nontrivial=len(nontrivial) + g_nontriv,
         rule="one evaluation = one query on one database history, or one load of one GFF text with one lines_per_block; "
              "non-trivial = coordinate-window query returning >=1 record, or a GFF load in which rows without ID= sit in more than "
              "one block; lattice block: all features/windows with coordinates in -1..7 x partial x bound presence, exhaustive; "
@@ -733,7 +947,7 @@ def run(tier: str, seed: int) -> int:
              "random block: random multi-span records on 3 seqids, shared names, %/_ patterns, histories of "
              "add/union/update/subset/copy; gffblocks: every 4-row file over {ID=a, ID=b, no ID} (+comment line) and random GFF "
              "texts, each loaded with lines_per_block in {1,2,3,5,len-1,len,default,None}",
-        gff_block_loads=g_loads, gff_block_loads_idless_rows_in_several_blocks=g_nontriv,
+        count_distinct_evaluations=cd_n, gff_block_loads=g_loads, gff_block_loads_idless_rows_in_several_blocks=g_nontriv,
         gff_block_model_variant="repaired rule (notes/proposed_fixes/C17-3.diff)" if gb_fixed else "rule as first read (split features duplicated)",
         samples=[dict(case=dict(cases[2], queries=cases[2]["queries"][:2]), impl=impl[2][:2] if not isinstance(impl[2], dict) else impl[2])],
         input_distribution=dict(cases=len(cases), queries=nq, ops=dist),
